@@ -115,9 +115,10 @@ def check(model, tier):
         execs = [c for c in ast.walk(v) if isinstance(c, ast.Call) and call_attr(c) == "execute"]
         caps = []
         for c in sorted(execs, key=lambda c: (c.lineno, c.col_offset)):
-            a0 = c.args[0] if c.args else None
-            b = env_at(p).get(a0.id) if isinstance(a0, ast.Name) else None
-            caps.append(b[2] if isinstance(b, tuple) and b[0] == "capture" else None)
+            from ..flow import field_access
+
+            fa = field_access(p, c.args[0]) if c.args else None
+            caps.append(fa[1] if fa is not None and fa[0] == rel else None)
         if caps == [("lhs",), ("rhs",)] and isinstance(v, ast.Call) and (dotted(v.func) or "").split(".")[-1] == "ChainRowIterable":
             run.ok("R01.3", "chain:lhs-then-rhs", {"returns": src(v)})
         else:
